@@ -287,38 +287,48 @@ func RunAPI(c APICase) APIResult {
 		}
 	}
 	// ... and once every rejected call is REPEATED many times in place (a rejected call is a stuttering step however often it is
-	// made: counters of refused calls, if any, must not reach the state): 257 times, and 65 537 times on one case in a hundred
+	// made: counters of refused calls, if any, must not reach the state): 253..258 times, and 65 533..65 538 times on one case in a hundred
 	if len(kept) < len(calls) && len(res.Violations) == 0 {
-		reps := 257
+		// (a counter of one byte wraps to a given value for one number of repetitions only: 253..258 are all tried when the case has
+		// few rejected calls, one of them otherwise)
+		repsList := []int{253 + int(hashStr(c.ID)%6)}
+		if len(calls)-len(kept) <= 3 {
+			repsList = []int{253, 254, 255, 256, 257, 258}
+		}
 		if c.Seed == 0 {
-			reps = 65537
+			repsList = append(repsList, 65533+int(hashStr(c.ID)%6))
 		}
-		var flood []APICall
-		var floodIdx []int // position in flood of the (last copy of the) i-th original call
-		for i, o := range obs {
-			k := 1
-			if o.cls == "ST" || o.cls == "II" {
-				k = reps
-			}
-			for j := 0; j < k; j++ {
-				flood = append(flood, calls[i])
-			}
-			floodIdx = append(floodIdx, len(flood)-1)
-		}
-		var scratch APIResult
-		obs3 := runAPICalls(c, flood, &scratch)
-		for i := range calls {
-			a, b := obs[i], obs3[floodIdx[i]]
-			if a.cls != b.cls || a.running != b.running || !sameEmis(a.emis, b.emis) || fmt.Sprint(a.cbs) != fmt.Sprint(b.cbs) {
-				res.Violations = append(res.Violations, Violation{"C10", "RejectedCallChangedBehaviour",
-					fmt.Sprintf("%s me=%d: call %d %s behaves differently once every rejected call is made %d times instead of once: (%s,%v,%v,%v) vs (%s,%v,%v,%v) (sequence %v)",
-						c.Proto, c.Me, i, calls[i].Op, reps, a.cls, a.running, emisKinds(a.emis), a.cbs, b.cls, b.running, emisKinds(b.emis), b.cbs, calls)})
+		for _, reps := range repsList {
+			if len(res.Violations) > 0 {
 				break
 			}
-		}
-		for _, v := range scratch.Violations {
-			res.Violations = append(res.Violations, v)
-			break
+			var flood []APICall
+			var floodIdx []int // position in flood of the (last copy of the) i-th original call
+			for i, o := range obs {
+				k := 1
+				if o.cls == "ST" || o.cls == "II" {
+					k = reps
+				}
+				for j := 0; j < k; j++ {
+					flood = append(flood, calls[i])
+				}
+				floodIdx = append(floodIdx, len(flood)-1)
+			}
+			var scratch APIResult
+			obs3 := runAPICalls(c, flood, &scratch)
+			for i := range calls {
+				a, b := obs[i], obs3[floodIdx[i]]
+				if a.cls != b.cls || a.running != b.running || !sameEmis(a.emis, b.emis) || fmt.Sprint(a.cbs) != fmt.Sprint(b.cbs) {
+					res.Violations = append(res.Violations, Violation{"C10", "RejectedCallChangedBehaviour",
+						fmt.Sprintf("%s me=%d: call %d %s behaves differently once every rejected call is made %d times instead of once: (%s,%v,%v,%v) vs (%s,%v,%v,%v) (sequence %v)",
+							c.Proto, c.Me, i, calls[i].Op, reps, a.cls, a.running, emisKinds(a.emis), a.cbs, b.cls, b.running, emisKinds(b.emis), b.cbs, calls)})
+					break
+				}
+			}
+			for _, v := range scratch.Violations {
+				res.Violations = append(res.Violations, v)
+				break
+			}
 		}
 	}
 	return res
